@@ -72,6 +72,25 @@ func (fx *fexec) loopVars(li *loopInfo, phiVal func(*ssa.Phi) Val) map[string]Va
 		if phi.Comment != "" {
 			vars[phi.Comment] = phiVal(phi)
 		}
+		// `for i, x := range s`: #i is the index of the next element (= completed iterations)
+		if phi.Comment == "rangeindex" || phi.Comment == "rangeint.iter" {
+			pv := phiVal(phi)
+			if pv.T.S != "" {
+				if phi.Comment == "rangeindex" {
+					pv.T = add(fx.vc.toInt(pv), intLit(1))
+				} else {
+					pv.T = fx.vc.toInt(pv)
+				}
+				pv.Ty = specInt
+				if _, isConst := constOf(pv.T); !isConst {
+					// an atomic name, so that quantified facts instantiate at s[#i] by E-matching
+					n := fx.vc.fresh("iter", SInt)
+					fx.vc.assert(eq(n, pv.T))
+					pv.T = n
+				}
+				vars["#i"] = pv
+			}
+		}
 	}
 	return vars
 }
@@ -219,6 +238,7 @@ type modSet struct {
 	targets map[string][]Term // component -> loop-invariant references written
 	coarse  map[string]bool   // component written through a non-invariant reference
 	allocs  bool
+	varying func(ssa.Value) bool
 }
 
 func newModSet() *modSet {
@@ -237,6 +257,7 @@ func (fx *fexec) loopModifies(li *loopInfo) *modSet {
 		}
 		return true
 	}
+	ms.varying = inBody
 	fx.scanModifies(fx.fn, func(b *ssa.BasicBlock) bool { return li.body[b] }, inBody, ms, 0)
 	return ms
 }
@@ -417,7 +438,35 @@ func (fx *fexec) scanCallModifies(x *ssa.Call, ms *modSet, depth int) {
 			for _, a := range c.Assigns {
 				comp, srt := fx.assignComp(c, body, a.X)
 				ms.comps[comp] = srt
-				ms.coarse[comp] = true
+				// `p.f` with p a parameter of the callee bound to a loop-invariant
+				// argument: only that reference is written
+				exact := false
+				if a.X.K == "sel" && a.X.Args[0].K == "id" && depth == 0 {
+					for i, p := range body.Params {
+						if p.Name() == a.X.Args[0].Op && i < len(cc.Args) {
+							arg := cc.Args[i]
+							if ms.varying != nil && !ms.varying(arg) {
+								if av, ok := fx.env[arg]; ok && av.T.S != "" && av.Loc == nil {
+									dup := false
+									for _, t := range ms.targets[comp] {
+										dup = dup || t.S == av.T.S
+									}
+									if !dup {
+										ms.targets[comp] = append(ms.targets[comp], av.T)
+									}
+									exact = true
+								}
+							}
+						}
+					}
+				}
+				if a.X.K == "ghost" {
+					ms.targets[comp] = append(ms.targets[comp], intLit(1))
+					exact = true
+				}
+				if !exact {
+					ms.coarse[comp] = true
+				}
 			}
 			return
 		}
